@@ -277,6 +277,37 @@ func r042(c *Ctx) {
 			continue
 		}
 		nHit++
+		// (the scan may hand back the matching binding itself and leave it to its callers to take the service and the
+		// prefix out of it: then every caller must take both from that one binding)
+		if s, full := fullRangeElem(v); full {
+			call, isCall := s.(*ssa.Call)
+			okB := isCall && isCallTo(call.Common(), bfh)
+			for _, g := range c.modFuncs {
+				for _, cs := range callsTo(g, sf) {
+					res, _ := cs.instr.(ssa.Value)
+					for _, rc := range retCases(g) {
+						for i, rv := range rc.vals {
+							if isNilConst(rv) {
+								continue
+							}
+							if sv, isS := constString(rv); isS && sv == "" {
+								continue
+							}
+							f, base, ok := fieldLoad(rv)
+							want := svcF
+							if i == 1 {
+								want = pp
+							}
+							if !ok || f != want || resolve(base) != res {
+								okB = false
+							}
+						}
+					}
+				}
+			}
+			c.ob(rule, "serviceFor/first-match-of-forward-scan", ret.Pos(), okB, true, "the binding returned must be the element of a forward, complete range over bindingsForHost(host), returned from inside the loop at the first match, and its callers must take the service and the prefix from that one binding")
+			continue
+		}
 		f, base, ok := fieldLoad(v)
 		okAll := ok && f == svcF
 		if okAll {
